@@ -29,6 +29,11 @@ def run_cases(mod, cases):
                         per_case_timeout=getattr(mod, "PER_CASE_TIMEOUT", 20.0))
     for c, r in zip(cases, res):
         c["sdk"] = r
+    # cases left unrun after repeated hangs of the SDK are dropped (the hangs themselves are judged)
+    dropped = [c for c in cases if c["sdk"] == ["not-run"]]
+    if dropped:
+        cases[:] = [c for c in cases if c["sdk"] != ["not-run"]]
+        print("note: %d cases were not run after repeated hangs / crashes of the SDK" % len(dropped))
     module, fn = mod.RUNNER
     trees = [[c["op"], c["input"], c["sdk"]] for c in cases]
     verdicts = C.run_in_coq(mod.PROP, module, fn, trees, shard_size=getattr(mod, "SHARD", 400))
@@ -198,7 +203,8 @@ def generic_main(mod, tier, seed, replay, t0, extra_evidence=None, pre_violation
             if reported >= 3:
                 reported += 1
                 continue
-            small = shrink(mod, c) if verdict_kind(c["verdict"]) == "disagree" else c
+            # a hang / crash costs the whole watchdog time per candidate: reported as found, not shrunk
+            small = shrink(mod, c) if (verdict_kind(c["verdict"]) == "disagree" and c["sdk"] not in (["hang"], ["crash"])) else c
             if classify_known(mod, small, known) is not None:
                 small = c   # shrinking walked into a known class: keep the original
             kind = verdict_kind(small["verdict"])
